@@ -134,6 +134,25 @@ var renameClasses = map[string][]string{
 	"shell-keyword":  {"fi", "done", "then", "do", "elif", "esac", "function", "select", "until", "while", "in", "time"},
 	"env-var":        {"PATH", "IFS", "HOME", "PWD", "RANDOM", "SECONDS", "LINENO", "UID", "OPTIND", "PPID", "BASH", "REPLY"},
 	"case-variant":   {"value", "Value", "VALUE"},
+	"non-ascii":      {"µs", "ê", "õ", "ú", "ε", "κ", "е", "к", "ä", "naïve", "Δt"},
+}
+
+// targeted renamings: spellings whose concatenations with function names, counters or prefixes coincide
+type targeted struct {
+	src   string
+	m     map[string]string
+	class string
+}
+
+const twoFuncs = "func inner(n int) int {\n\ttot := n + 100\n\treturn tot\n}\nfunc outer(n int) int {\n\tacc := n * 2\n\tt := inner(n)\n\treturn acc + t\n}\ng := 7\nprint(outer(3), g)\ng = g + outer(1)\nprint(g)\n"
+
+var renameTargeted = []targeted{
+	{twoFuncs, map[string]string{"outer": "sum", "acc": "sq_acc", "inner": "sum_sq", "tot": "acc", "g": "total", "n": "n", "t": "t"}, "concat-collision"},
+	{twoFuncs, map[string]string{"outer": "get", "acc": "count", "inner": "get_count", "tot": "x", "g": "get_count_x", "n": "n", "t": "t"}, "concat-collision"},
+	{twoFuncs, map[string]string{"outer": "a", "acc": "b_c", "inner": "a_b", "tot": "c", "g": "a_b_c", "n": "n", "t": "t"}, "concat-collision"},
+	{twoFuncs, map[string]string{"outer": "f", "acc": "x1", "inner": "f1", "tot": "x", "g": "f1_tot", "n": "n", "t": "t"}, "mangled-local"},
+	{twoFuncs, map[string]string{"outer": "f1", "acc": "acc", "inner": "f2", "tot": "acc2", "g": "f2_acc", "n": "n", "t": "t"}, "mangled-local"},
+	{twoFuncs, map[string]string{"outer": "Outer", "acc": "Acc", "inner": "outer", "tot": "acc", "g": "ACC", "n": "n", "t": "T"}, "case-variant"},
 }
 
 var renameHand = []string{
@@ -187,6 +206,18 @@ func init() {
 		}
 		sort.Strings(classes)
 		dist := map[string]int{}
+		for _, tg := range renameTargeted {
+			uses, _ := userIdents(tg.src)
+			ren := applyRenaming(tg.src, uses, tg.m)
+			fa := progFields("main.tsh", map[string]string{"main.tsh": tg.src}, false)
+			fb := progFields("main.tsh", map[string]string{"main.tsh": ren}, false)
+			g.addCase("emit", fa...)
+			g.addCase("emit", fb...)
+			id := fmt.Sprintf("%d#var/%s", g.n, tg.class)
+			g.n++
+			fmt.Fprintf(g.cases, "ren %s %s %s %s %s\n", id, fa[0], fa[1], fa[2], fb[1])
+			dist["var/"+tg.class]++
+		}
 		for i := 0; i < n; i++ {
 			var src string
 			if r.Intn(4) == 0 {
